@@ -46,7 +46,7 @@ def build_steps(rng, b, kinds):
         din = A.read(cur)
         if kind == 'edits':
             raw, clean = docrun.extract(cur, False), docrun.extract(cur, True)
-            edits = [e for e in E.gen_batch(rng, din, raw, clean, 'exact') if '\n' not in e[1] and not e[1].startswith('#')]
+            edits = [e for e in E.gen_batch(rng, din, raw, clean, rng.choice(['exact', 'exact', 'mixed'])) if '\n' not in e[1] and not e[1].startswith('#')]      # 'mixed': larger batches that go through the accepted-view fallback, duplicates, overlaps, unlocatable targets
             if not edits: kind = 'accept_all'
             else: st = ('edits', AUTHORS[k % 2], edits)
         if kind == 'review':
